@@ -1,4 +1,6 @@
 import VyxalModel.Model.Lists
+import VyxalModel.Lemmas.Cartesian
+import Mathlib.Data.List.ProdSigma
 import Mathlib.Data.List.Sublists
 import Mathlib.Data.Nat.Factorial.Basic
 import Mathlib.Tactic.Ring
@@ -17,7 +19,9 @@ element (`itertools.permutations`, modelled by position) yields `n!` lists, each
 `sublists` yields exactly the non-empty contiguous pieces (`contiguous_mem`, `contiguous_length`); overlapping groups are the
 `take k ∘ drop i` (`windows_spec`); run-length encoding and decoding are inverse bijections between lists and lists of
 maximal runs (`rld_rle`, `rle_runs`, `rle_rld`).
-The cartesian product (diagonal order) is covered by the correspondence and the law oracles only (T5).
+The cartesian product's diagonal walk (`Model/Cartesian.lean`, with the element's `lhs_max` / `rhs_max` bookkeeping, lists and lazy
+lists) yields the existing pairs diagonal by diagonal (`cartesian_diagonals`) — a rearrangement of the full product, every pair
+of positions exactly once (`cartesian_perm`, `cartesian_length`).
 -/
 namespace C16
 open Ls
@@ -564,5 +568,105 @@ theorem rle_rld : ∀ (ps : List (Int × Nat)), RunsOK ps → rle (rld ps) = ps
 example : rle [97, 97, 98, 99, 99, 99] = [(97, 2), (98, 1), (99, 3)] ∧ RunsOK [(97, 2), (98, 1), (99, 3)]
     ∧ windows [1, 2, 3, 4] 2 = [[1, 2], [2, 3], [3, 4]] ∧ contiguous [1, 2, 3] = [[1], [1, 2], [2], [1, 2, 3], [2, 3], [3]] := by
   refine ⟨by decide, by simp [RunsOK], by decide, by decide⟩
+
+/-! ## cartesian product (`Ẋ`): the diagonal walk yields every pair exactly once, diagonal by diagonal -/
+
+/-- **the walk's output, diagonal by diagonal** (lists: `lm0 = |l| - 1`, `rm0 = |r| - 1`; lazy lists: `0`) -/
+theorem cartesian_diagonals (l r : List Int) (hl : l ≠ []) (hr : r ≠ []) (lm0 rm0 : Nat)
+    (h1 : MaxOK l.length lm0) (h2 : MaxOK r.length rm0) :
+    cartesian l r lm0 rm0 = (List.range (l.length + r.length - 1)).flatMap (diagPairs l r) := by
+  have hl' : 0 < l.length := List.length_pos_iff.mpr hl
+  simp only [cartesian, hl, hr, or_self, if_false]
+  exact cpOuter_spec l r hl hr _ 0 lm0 rm0 [] (by omega) (by omega) h1 h2 (by simp)
+
+theorem cartesian_empty (l r : List Int) (lm0 rm0 : Nat) (h : l = [] ∨ r = []) : cartesian l r lm0 rm0 = [] := by
+  simp [cartesian, h]
+
+/-- the initial values the element uses satisfy the walk's invariant -/
+theorem cartesian_initial_ok (l : List Int) : MaxOK l.length (l.length - 1) ∧ MaxOK l.length 0 :=
+  ⟨Or.inr (by omega), Or.inl rfl⟩
+
+/-- index pairs of diagonal `d` -/
+def diagIdx (n m d : Nat) : List (Nat × Nat) :=
+  ((List.range (d + 1)).filter (fun i => decide (i < n) && decide (d - i < m))).map (fun i => (i, d - i))
+
+theorem mem_diagIdx (n m d : Nat) (p : Nat × Nat) : p ∈ diagIdx n m d ↔ p.1 < n ∧ p.2 < m ∧ p.1 + p.2 = d := by
+  obtain ⟨i, j⟩ := p
+  simp only [diagIdx, List.mem_map, List.mem_filter, List.mem_range, Bool.and_eq_true, decide_eq_true_eq, Prod.mk.injEq]
+  constructor
+  · rintro ⟨i', ⟨h1, h2, h3⟩, rfl, rfl⟩
+    exact ⟨h2, h3, by omega⟩
+  · rintro ⟨h1, h2, h3⟩
+    exact ⟨i, ⟨by omega, h1, by omega⟩, rfl, by omega⟩
+
+theorem diagIdx_nodup (n m d : Nat) : (diagIdx n m d).Nodup := by
+  apply List.Nodup.map_on
+  · intro x _ y _ h; exact (Prod.mk.inj h).1
+  · exact List.Nodup.filter _ List.nodup_range
+
+theorem diagIdx_perm (n m : Nat) :
+    ((List.range (n + m - 1)).flatMap (diagIdx n m)).Perm ((List.range n) ×ˢ (List.range m)) := by
+  rw [List.perm_ext_iff_of_nodup]
+  · rintro ⟨i, j⟩
+    simp only [List.mem_flatMap, List.mem_range, mem_diagIdx, List.mem_product]
+    constructor
+    · rintro ⟨d, _, h1, h2, _⟩; exact ⟨h1, h2⟩
+    · rintro ⟨h1, h2⟩; exact ⟨i + j, by omega, h1, h2, rfl⟩
+  · rw [List.nodup_flatMap]
+    refine ⟨fun d _ => diagIdx_nodup n m d, ?_⟩
+    apply List.Pairwise.imp_of_mem (R := fun a b => a ≠ b)
+    · intro a b _ _ hab
+      simp only [Function.onFun]
+      intro p ha hb
+      rw [mem_diagIdx] at ha hb
+      omega
+    · exact List.nodup_range
+  · exact List.Nodup.product List.nodup_range List.nodup_range
+
+theorem map_product {α β γ δ} (f : α → γ) (g : β → δ) (a : List α) (b : List β) :
+    (a ×ˢ b).map (Prod.map f g) = (a.map f) ×ˢ (b.map g) := by
+  induction a with
+  | nil => simp
+  | cons x xs ih => simp [List.product_cons, ih, List.map_map, Function.comp_def]
+
+theorem range_map_getD (l : List Int) : (List.range l.length).map (fun i => l.getD i 0) = l := by
+  apply List.ext_getElem
+  · simp
+  · intro i h1 h2; simp [List.getD_eq_getElem?_getD, List.getElem?_eq_getElem h2]
+
+theorem diagPairs_eq_map (l r : List Int) (d : Nat) :
+    diagPairs l r d = (diagIdx l.length r.length d).map (Prod.map (fun i => l.getD i 0) (fun j => r.getD j 0)) := by
+  simp only [diagPairs, diagIdx, List.map_map]
+  rfl
+
+/-- **cartesian product**: a rearrangement of all the pairs `(a, b)`, `a` from the left list and `b` from the right —
+    every pair of positions exactly once -/
+theorem cartesian_perm (l r : List Int) (lm0 rm0 : Nat) (h1 : MaxOK l.length lm0) (h2 : MaxOK r.length rm0) :
+    (cartesian l r lm0 rm0).Perm (l ×ˢ r) := by
+  by_cases hl : l = []
+  · subst hl; simp [cartesian]
+  by_cases hr : r = []
+  · subst hr; simp [cartesian]
+  rw [cartesian_diagonals l r hl hr lm0 rm0 h1 h2]
+  have e : (List.range (l.length + r.length - 1)).flatMap (diagPairs l r)
+      = ((List.range (l.length + r.length - 1)).flatMap (diagIdx l.length r.length)).map
+          (Prod.map (fun i => l.getD i 0) (fun j => r.getD j 0)) := by
+    rw [List.map_flatMap]
+    congr 1
+    funext d
+    exact diagPairs_eq_map l r d
+  rw [e]
+  have := (diagIdx_perm l.length r.length).map (Prod.map (fun i => l.getD i 0) (fun j => r.getD j 0))
+  rw [map_product, range_map_getD, range_map_getD] at this
+  exact this
+
+theorem cartesian_length (l r : List Int) (lm0 rm0 : Nat) (h1 : MaxOK l.length lm0) (h2 : MaxOK r.length rm0) :
+    (cartesian l r lm0 rm0).length = l.length * r.length := by
+  rw [(cartesian_perm l r lm0 rm0 h1 h2).length_eq, List.length_product]
+
+/-- the order: pairs come by increasing index sum, and within one sum by increasing left index -/
+example : cartesian [1, 2, 3] [10, 20] 2 1 = [(1, 10), (1, 20), (2, 10), (2, 20), (3, 10), (3, 20)] ∧
+    cartesian [1, 2, 3] [10] 0 0 = [(1, 10), (2, 10), (3, 10)] := by decide
+
 
 end C16
